@@ -6,7 +6,7 @@ import z3
 from . import build, runner
 from .mharness import MCtx, mdischarge
 from .oracle import guard, summarize
-from .llbmc import Ptr, NULL
+from .llbmc import Ptr, NULL, State
 
 ASSUMPTIONS = [
     'stops are non-negative and non-decreasing (cumulative lengths of the partitions, as the constructor callers build them)',
@@ -94,8 +94,409 @@ def h_partition_at(P):
 
 def jobs(tier):
     # the PartitionedArray constructor rejects an empty partition list: P >= 1 is the class invariant
-    return [(h_partition_at, (P,), 900) for P in range(1, 5 if tier == 'quick' else 7)]
+    return [(h_partition_at, (P,), 900) for P in range(1, 5 if tier == 'quick' else 7)] + range_jobs(tier)
 
 
 def main(report, tier):
     return summarize(report, runner.run_tasks(jobs(tier)), 'C18')
+
+
+# ---------------------------------------------------------------------------------------------- range slices across partitions
+# PartitionedArray::getitem_range(start, stop, step) (regularize_rangeslice + getitem_range_nowrap) executed from its IR on an
+# IrregularlyPartitionedArray whose partitions are opaque contents: the virtual calls made on them (length, getitem_range_nowrap,
+# getitem(Slice), getitem_nothing) are observation points whose results obey the documented contract (a CPython slice of a content of
+# length n selects slice.indices(n)); every content carries the global positions it stands for, so the pushed result partitions can be
+# compared, element by element, with range(start, stop, step) of the concatenation.
+SLC = 'src/libawkward/Slice.cpp'
+KU = 'src/cpu-kernels/kernel-utils.cpp'
+EA = 'src/libawkward/array/EmptyArray.cpp'
+KD = 'src/libawkward/kernel-dispatch.cpp'
+KNONE = 2 ** 63 - 1
+
+
+def BV(x):
+    return z3.BitVecVal(x, 64)
+
+
+def slice_sel(length, a, b, step):
+    """CPython slice(a, b, step) on a sequence of `length` (z3 terms; step a Python int != 0): (first index, count)"""
+    from .hlib import py_slice_indices
+    st, sp = py_slice_indices(a, b, z3.BoolVal(step > 0), length)
+    if step > 0:
+        cnt = z3.If(sp > st, z3.UDiv(sp - st - 1, BV(step)) + 1, BV(0))
+    else:
+        cnt = z3.If(st > sp, z3.UDiv(st - sp - 1, BV(-step)) + 1, BV(0))
+    return st, cnt
+
+
+def content_slots():
+    from .cpp01 import vtable_slots
+    from .mharness import module_of
+    slots, nslots = vtable_slots(module_of(EA), 'N7awkward10EmptyArrayE')
+
+    def slot(frag):
+        for s, k in slots.items():
+            if frag in s:
+                return k
+        from .llbmc import Unsupported
+        raise Unsupported('Content vtable slot %s not found' % frag)
+    return dict(length=slot('6lengthEv'), rnw=slot('20getitem_range_nowrapEll'), get=slot('7getitemERKNS_5SliceE'), nothing=slot('15getitem_nothingEv'),
+                at_nowrap=slot('17getitem_at_nowrapEl')), nslots
+
+
+def _ld(eng, st, p, off, mem=None):
+    """field of an opaque content / recorded slice through a possibly guarded pointer"""
+    from .llbmc import ptr_cases
+    mem = mem or st.mem
+    res = None
+    for g, q in ptr_cases(p):
+        if q.obj is None:
+            if st is not None:
+                eng.add_obl('null-deref', st, g, 'virtual call or field read through a null content pointer', 'observation stub')
+            continue
+        v = mem.o[q.obj].cells[q.off + off][0]
+        res = v if res is None else z3.If(g, v, res)
+    if res is None:
+        from .llbmc import Unsupported
+        raise Unsupported('content pointer is null on every path')
+    return z3.simplify(res)
+
+
+def range_stubs(K, pamod):
+    from .mharness import stub_noop
+
+    def new_content(eng, st, length, gstart, gstep):
+        nm = eng.fresh_name('content')
+        p = eng.new_record(st.mem, nm, None, tag='content')
+        st.mem.o[nm].cells.update({0: (Ptr('fakevt', 0), 8), 8: (z3.simplify(length), 8), 16: (z3.simplify(gstart), 8), 24: (z3.simplify(gstep), 8)})
+        return p
+
+    def ret_content(st, sret, p):
+        rec = st.mem.o[sret.obj]
+        rec.cells[sret.off] = (p, 8)
+        rec.cells[sret.off + 8] = (NULL, 8)
+
+    def s_length(eng, fr, ins, st, name, argv):
+        return _ld(eng, st, argv[0], 8)
+
+    def s_rnw(eng, fr, ins, st, name, argv):
+        sret, self, a, b = argv
+        L, g0, gs = _ld(eng, st, self, 8), _ld(eng, st, self, 16), _ld(eng, st, self, 24)
+        eng.add_obl('contract', st, z3.Not(z3.And(a >= 0, a <= b, b <= L)), 'getitem_range_nowrap of a partition called outside 0 <= start <= stop <= length', eng.where(fr, ins))
+        ret_content(st, sret, new_content(eng, st, b - a, g0 + a * gs, gs))
+        return None
+
+    def s_getitem(eng, fr, ins, st, name, argv):
+        sret, self, sl = argv
+        L, g0, gs = _ld(eng, st, self, 8), _ld(eng, st, self, 16), _ld(eng, st, self, 24)
+        a, b, s = _ld(eng, st, sl, 64), _ld(eng, st, sl, 72), _ld(eng, st, sl, 80)
+        if not z3.is_bv_value(s):
+            from .llbmc import Unsupported
+            raise Unsupported('slice step handed to a partition is not concrete')
+        first, cnt = slice_sel(L, a, b, s.as_signed_long())
+        ret_content(st, sret, new_content(eng, st, cnt, g0 + first * gs, gs * s))
+        return None
+
+    def s_nothing(eng, fr, ins, st, name, argv):
+        ret_content(st, argv[0], new_content(eng, st, BV(0), BV(0), BV(1)))
+        return None
+
+    def s_at_nowrap(eng, fr, ins, st, name, argv):
+        sret, self, at = argv
+        st.trace = st.trace + ((st.pc, 'at_nowrap', (self, at)),)
+        ret_content(st, sret, NULL)
+        return None
+
+    def s_slice_ctor(eng, fr, ins, st, name, argv):
+        sl = argv[0]
+        o = st.mem.o[sl.obj]
+        for k in range(3):
+            o.cells[sl.off + 8 * k] = (NULL, 8)        # items_: empty vector
+        o.cells[sl.off + 24] = (z3.BitVecVal(0, 8), 1)
+        return None
+
+    def s_slice_append(eng, fr, ins, st, name, argv):
+        sl, rg = argv
+        o = st.mem.o[sl.obj]
+        for k in range(3):                                # the appended SliceRange's (start_, stop_, step_) kept beside the Slice object
+            o.cells[sl.off + 64 + 8 * k] = (_ld(eng, st, rg, 8 + 8 * k), 8)
+        return None
+
+    def bump(st, vec, n):
+        o = st.mem.o[vec.obj]
+        o.cells[vec.off] = (Ptr('dummyvec', BV(0)), 8)
+        o.cells[vec.off + 8] = (Ptr('dummyvec', BV(n)), 8)
+        o.cells[vec.off + 16] = (Ptr('dummyvec', BV(n)), 8)
+
+    def s_push_parts(eng, fr, ins, st, name, argv):
+        vec, pos, x = argv
+        st.trace = st.trace + ((st.pc, 'push_parts', (eng.load(st, x, '%"class.awkward::Content"*', pamod, 'observation stub'),)),)
+        bump(st, vec, 2)
+        return None
+
+    def s_push_stops(eng, fr, ins, st, name, argv):
+        vec, pos, x = argv
+        st.trace = st.trace + ((st.pc, 'push_stops', (eng.load(st, x, 'i64', pamod, 'observation stub'),)),)
+        bump(st, vec, 1)
+        return None
+
+    def s_new(eng, fr, ins, st, name, argv):
+        return eng.new_record(st.mem, eng.fresh_name('heap'), None, tag='heap')
+
+    def regularize(eng, fr, ins, st, name, argv):
+        out = eng.call('awkward_regularize_rangeslice', argv, st.mem, st.pc, st.trace)
+        st.mem = out.mem
+        return None
+
+    def handle_error(eng, fr, ins, st, name, argv):
+        err = argv[0]
+        cell = st.mem.o[err.obj].cells.get(err.off)
+        isnull = eng.is_null(cell[0]) if cell is not None else z3.BoolVal(True)
+        c = z3.simplify(z3.Not(isnull))
+        if z3.is_true(c):
+            return ('raise',)
+        if z3.is_false(c):
+            return None
+        return ('split', c)
+    def s_classname(eng, fr, ins, st, name, argv):
+        # std::string result (error-message text is not the subject): an empty small string in the sret slot
+        sret = argv[0]
+        o = st.mem.o[sret.obj]
+        o.cells[sret.off] = (Ptr(sret.obj, sret.off + 16), 8)
+        o.cells[sret.off + 8] = (BV(0), 8)
+        o.cells[sret.off + 16] = (z3.BitVecVal(0, 8), 1)
+        return None
+    return {'_ZNK7awkward27IrregularlyPartitionedArray9classnameB5cxx11Ev': s_classname, 'vf$slot%d' % K['length']: s_length, 'vf$slot%d' % K['rnw']: s_rnw, 'vf$slot%d' % K['get']: s_getitem, 'vf$slot%d' % K['nothing']: s_nothing,
+            'vf$slot%d' % K['at_nowrap']: s_at_nowrap,
+            '_ZN7awkward5SliceC1Ev': s_slice_ctor, '_ZN7awkward5SliceC2Ev': s_slice_ctor, '_ZN7awkward5Slice6appendERKNS_10SliceRangeE': s_slice_append,
+            '_ZN7awkward5Slice13become_sealedEv': stub_noop, '_ZN7awkward9SliceItemD2Ev': stub_noop, '_ZN7awkward5SliceD2Ev': stub_noop, '_ZN7awkward5SliceD1Ev': stub_noop,
+            '_ZNSt6vectorISt10shared_ptrIN7awkward7ContentEESaIS3_EE17_M_realloc_insert*': s_push_parts,
+            '_ZNSt6vectorIlSaIlEE17_M_realloc_insert*': s_push_stops,
+            '_ZSt10_ConstructIN7awkward27IrregularlyPartitionedArrayE*': stub_noop, '_Znwm': s_new,
+            '_ZNSt6vectorISt10shared_ptrIN7awkward7ContentEESaIS3_EED2Ev': stub_noop,
+            '_ZN7awkward6kernel21regularize_rangesliceEPlS1_bbbl': regularize, '_ZN7awkward4util12handle_error*': handle_error}
+
+
+def build_partitioned(m, lens, K, nslots):
+    """IrregularlyPartitionedArray over opaque contents of the given (concrete) lengths"""
+    from .mharness import module_of
+    P = len(lens)
+    m.record('fakevt', {8 * k: (Ptr(('func', 'vf$slot%d' % k), 0), 8) for k in range(nslots)}, const=True)
+    gs, parr, stops_v = 0, [], []
+    for i, L in enumerate(lens):
+        m.record('part%d' % i, {0: (Ptr('fakevt', 0), 8), 8: (BV(L), 8), 16: (BV(gs), 8), 24: (BV(1), 8)}, const=True)
+        parr += [Ptr('part%d' % i, 0), NULL]
+        gs += L
+        stops_v.append(gs)
+    parts = m.array('parts', ('ptr', 64), 2 * P, const=True, arr=parr)
+    sarr = z3.K(z3.BitVecSort(64), BV(0))
+    for i, v in enumerate(stops_v):
+        sarr = z3.Store(sarr, BV(i), BV(v))
+    stops = m.array('stops', ('i', 64), P, const=True, arr=sarr)
+    st0 = State({}, m.mem, z3.BoolVal(True))
+    vt = m.eng.global_ptr(st0, '@_ZTVN7awkward27IrregularlyPartitionedArrayE', module_of(IPA))
+    this = m.record('ipa', {0: (Ptr(vt.obj, 16), 8), 8: (parts, 8), 16: (Ptr('parts', BV(2 * P)), 8), 24: (Ptr('parts', BV(2 * P)), 8),
+                            32: (stops, 8), 40: (Ptr('stops', BV(P)), 8), 48: (Ptr('stops', BV(P)), 8)})
+    m.record('ret', {})
+    m.array('dummyvec', ('ptr', 64), 4, arr=[NULL] * 4)
+    return this, gs
+
+
+RANGE_DRIVER = r'''
+#include <cstdio>
+#include <cstdlib>
+#include <vector>
+#include <stdexcept>
+#include "awkward/partition/IrregularlyPartitionedArray.h"
+#include "awkward/Slice.h"
+using namespace awkward;
+struct Dbl { void** vt; long len; long g0; long gs; };
+static void* VT[%(nslots)d];
+static void nodel(Content*) { }
+static ContentPtr mk(long len, long g0, long gs) { Dbl* d = new Dbl; d->vt = VT; d->len = len; d->g0 = g0; d->gs = gs; return ContentPtr((Content*)d, nodel); }
+extern "C" void d_trap() { printf("{\"outcome\": \"unexpected-virtual-call\"}\n"); fflush(stdout); _Exit(3); }
+extern "C" long d_length(Dbl* self) { return self->len; }
+extern "C" void d_rnw(ContentPtr* sret, Dbl* self, long a, long b) {
+  if (!(0 <= a && a <= b && b <= self->len)) { printf("{\"outcome\": \"nowrap-contract\", \"a\": %%ld, \"b\": %%ld, \"len\": %%ld}\n", a, b, self->len); fflush(stdout); _Exit(0); }
+  new (sret) ContentPtr(mk(b - a, self->g0 + a * self->gs, self->gs)); }
+static void adjust(long len, long& start, long& stop, long step) {   // PySlice_AdjustIndices
+  const long none = %(knone)dL;
+  if (start == none) start = step > 0 ? 0 : len - 1;
+  else if (start < 0) { start += len; if (start < 0) start = step < 0 ? -1 : 0; } else if (start >= len) start = step < 0 ? len - 1 : len;
+  if (stop == none) stop = step > 0 ? len : -1;
+  else if (stop < 0) { stop += len; if (stop < 0) stop = step < 0 ? -1 : 0; } else if (stop >= len) stop = step < 0 ? len - 1 : len;
+}
+extern "C" void d_getitem(ContentPtr* sret, Dbl* self, const Slice* sl) {
+  SliceRange* r = (SliceRange*)sl->head().get();
+  long a = r->start(), b = r->stop(), s = r->step(), cnt = 0;
+  adjust(self->len, a, b, s);
+  if (s > 0 && b > a) cnt = (b - a - 1) / s + 1;
+  if (s < 0 && a > b) cnt = (a - b - 1) / (-s) + 1;
+  new (sret) ContentPtr(mk(cnt, self->g0 + a * self->gs, self->gs * s)); }
+extern "C" void d_nothing(ContentPtr* sret, Dbl* self) { new (sret) ContentPtr(mk(0, 0, 1)); }
+static long at_part = -1, at_index = -1;
+extern "C" void d_at_nowrap(ContentPtr* sret, Dbl* self, long at) { at_part = self->g0; at_index = at; new (sret) ContentPtr(nullptr); }
+namespace awkward { namespace util {
+  void handle_error(const struct Error& err, const std::string& classname, const Identities* id) {
+    if (err.str != nullptr) throw std::invalid_argument(err.str);
+  } } }
+int main(int argc, char** argv) {
+  for (int i = 0; i < %(nslots)d; i++) VT[i] = (void*)d_trap;
+  VT[%(k_length)d] = (void*)d_length; VT[%(k_rnw)d] = (void*)d_rnw; VT[%(k_get)d] = (void*)d_getitem; VT[%(k_nothing)d] = (void*)d_nothing;
+  VT[%(k_at)d] = (void*)d_at_nowrap;
+  int mode = atoi(argv[1]); int P = atoi(argv[2]);
+  std::vector<int64_t> stops; ContentPtrVec parts; long tot = 0;
+  for (int i = 0; i < P; i++) { long L = atol(argv[3 + i]); parts.push_back(mk(L, tot, 1)); tot += L; stops.push_back(tot); }
+  IrregularlyPartitionedArray arr(parts, stops);
+  long a = atol(argv[3 + P]), b = atol(argv[4 + P]), c = atol(argv[5 + P]);
+  try {
+    if (mode == 1) {
+      arr.getitem_at(a);
+      printf("{\"outcome\": \"ok\", \"part_start\": %%ld, \"index\": %%ld}\n", at_part, at_index);
+    } else {
+      PartitionedArrayPtr out = arr.getitem_range(a, b, c);
+      IrregularlyPartitionedArray* irr = (IrregularlyPartitionedArray*)out.get();
+      printf("{\"outcome\": \"ok\", \"positions\": [");
+      bool first = true;
+      for (int64_t p = 0; p < irr->numpartitions(); p++) {
+        Dbl* d = (Dbl*)irr->partition(p).get();
+        for (long k = 0; k < d->len; k++) { printf("%%s%%ld", first ? "" : ", ", d->g0 + k * d->gs); first = false; }
+      }
+      printf("], \"lens\": [");
+      for (int64_t p = 0; p < irr->numpartitions(); p++) printf("%%s%%ld", p ? ", " : "", ((Dbl*)irr->partition(p).get())->len);
+      printf("], \"stops\": [");
+      std::vector<int64_t> st = irr->stops();
+      for (size_t p = 0; p < st.size(); p++) printf("%%s%%ld", p ? ", " : "", (long)st[p]);
+      printf("]}\n");
+    }
+  } catch (std::invalid_argument& e) { printf("{\"outcome\": \"raised\"}\n"); }
+  fflush(stdout); _Exit(0);
+}
+'''
+
+
+def native_partitioned(mode, lens, a, b, c):
+    import json
+    K, nslots = content_slots()
+    drv = RANGE_DRIVER % dict(nslots=nslots, knone=KNONE, k_length=K['length'], k_rnw=K['rnw'], k_get=K['get'], k_nothing=K['nothing'], k_at=K['at_nowrap'])
+    exe = build.compile_objs_driver(drv, [IPA, PA, SLC, KU, KD])
+    r = subprocess.run([exe, str(mode), str(len(lens))] + [str(x) for x in lens] + [str(a), str(b), str(c)], capture_output=True, text=True, timeout=30,
+                       env=dict(os.environ, ASAN_OPTIONS='detect_leaks=0', UBSAN_OPTIONS='halt_on_error=1:exitcode=87'), errors='replace')
+    try:
+        return json.loads(r.stdout.strip().splitlines()[-1]), r.stderr[-300:]
+    except (ValueError, IndexError):
+        return dict(outcome='crash(%d)' % r.returncode), r.stderr[-300:]
+
+
+@guard
+def h_range(lens, step):
+    """PartitionedArray::getitem_range(start, stop, step) == the same slice of the concatenation; lens and step concrete (size
+    case-split), start / stop any int64 (kSliceNone = None)"""
+    lens = list(lens)
+    P = len(lens)
+    from .mharness import module_of
+    K, nslots = content_slots()
+    m = MCtx([IPA, PA, SLC, KU], unwind=P + 3, stubs=range_stubs(K, module_of(PA)))
+    start, stop = m.bv('start'), m.bv('stop')
+    this, total = build_partitioned(m, lens, K, nslots)
+    out = m.call('_ZNK7awkward16PartitionedArray13getitem_rangeElll', [Ptr('ret', 0), this, start, stop, BV(step)])
+    estep = 1 if step == KNONE else step
+    S, n = slice_sel(BV(total), start, stop, estep)
+    pushes = [(pc, a[0]) for pc, nm, a in out.trace if nm == 'push_parts']
+    pstops = [(pc, a[0]) for pc, nm, a in out.trace if nm == 'push_stops']
+    obls = [('a range slice never raises', out.raised)]
+    if len(pushes) != len(pstops):
+        obls.append(('every pushed partition has its stop pushed', z3.BoolVal(True)))
+    cum = BV(0)
+    Lmax = max(lens + [1])
+    for j, (pc, p) in enumerate(pushes[:len(pstops)]):
+        L, g0, gs = _ld(m.eng, None, p, 8, out.mem), _ld(m.eng, None, p, 16, out.mem), _ld(m.eng, None, p, 24, out.mem)
+        for k in range(Lmax):
+            obls.append(('element %d of result partition #%d is element start + (preceding + %d) * step of the concatenation' % (k, j, k),
+                         z3.And(pc, k < L, g0 + k * gs != S + (cum + k) * estep)))
+        obls.append(('result partition #%d is longer than any input partition' % j, z3.And(pc, L > Lmax)))
+        obls.append(('no empty partition is kept in a non-empty result (#%d)' % j, z3.And(pc, L <= 0, n != 0)))
+        obls.append(('stops[#%d] is the cumulative length' % j, z3.And(pc, pstops[j][1] != cum + L)))
+        obls.append(('partition #%d and its stop are pushed together' % j, z3.Xor(pc, pstops[j][0])))
+        cum = z3.If(pc, cum + L, cum)
+    obls.append(('the result has exactly len(range(*slice.indices(total))) elements', z3.And(z3.Not(out.raised), cum != n)))
+    obls.append(('the result has at least one partition', z3.And(z3.Not(out.raised), z3.Not(z3.Or([pc for pc, _ in pushes] + [z3.BoolVal(False)])))))
+
+    def replay(model, ent):
+        ev = lambda e: model.eval(e, model_completion=True).as_signed_long()
+        A, B = ev(start), ev(stop)
+        res, log = native_partitioned(2, lens, A, B, step)
+        want = list(range(total))[slice(None if A == KNONE else A, None if B == KNONE else B, None if step == KNONE else step)]
+        payload = dict(partition_lengths=lens, start=A, stop=B, step=step, native=res, expected=want)
+        if res.get('outcome') != 'ok':
+            return True, 'partition lengths %s, slice [%s:%s:%s]: native run %s %s' % (lens, A, B, step, res, log[-150:]), payload
+        acc, cs = 0, []
+        for x in res['lens']:
+            acc += x; cs.append(acc)
+        if res['positions'] != want or res['stops'] != cs or (want and 0 in res['lens']):
+            return True, 'partition lengths %s, slice [%s:%s:%s]: partitioned result selects %s (stops %s), the concatenated array gives %s' % (
+                lens, A, B, step, res['positions'], res['stops'], want), payload
+        return False, 'native result agrees (%s)' % res['positions'], payload
+    tw = [('a non-empty selection', n > 0)] if total > 0 else [('the empty array', n == 0)]
+    if P >= 2 and total >= 2:
+        tw.append(('selection spans more than one partition', z3.Or([z3.And(pushes[i][0], pushes[j][0]) for i in range(len(pushes)) for j in range(i + 1, len(pushes))] + [z3.BoolVal(False)])))
+    small = lambda v: z3.Or(v == KNONE, z3.And(v >= -total - 2, v <= total + 2))
+    return mdischarge(m, 'PartitionedArray::getitem_range lens=%s step=%s' % (','.join(map(str, lens)), 'None' if step == KNONE else step), obls, tw, replay=replay,
+                      prefer=[small(start), small(stop)],
+                      extra=dict(bounds='partition lengths %s and step %s concrete (case split); start, stop any int64 incl. None' % (lens, step)))
+
+
+@guard
+def h_getitem_at(lens):
+    """PartitionedArray::getitem_at(at): Python index semantics on the concatenation (one negative wrap, out of range raises and never
+    reaches a partition), item handed to the containing partition at its local index"""
+    lens = list(lens)
+    P = len(lens)
+    from .mharness import module_of
+    K, nslots = content_slots()
+    m = MCtx([IPA, PA, SLC, KU], unwind=P + 3, stubs=range_stubs(K, module_of(PA)))
+    at = m.bv('at')
+    this, total = build_partitioned(m, lens, K, nslots)
+    out = m.call('_ZNK7awkward16PartitionedArray10getitem_atEl', [Ptr('ret', 0), this, at])
+    calls = [(pc, a) for pc, nm, a in out.trace if nm == 'at_nowrap']
+    reg = z3.If(at < 0, at + total, at)
+    inr = z3.And(reg >= 0, reg < total)
+    called = z3.Or([pc for pc, _ in calls] + [z3.BoolVal(False)])
+    obls = [('raises exactly when the index is out of range of the concatenation', out.raised != z3.Not(inr)),
+            ('an out-of-range index never reaches a partition', z3.And(z3.Not(inr), called)),
+            ('an in-range index is handed to a partition', z3.And(inr, z3.Not(called)))]
+    for pc, (self, idx) in calls:
+        g0, L = _ld(m.eng, None, self, 16, out.mem), _ld(m.eng, None, self, 8, out.mem)
+        obls.append(('the partition asked holds the position and gets its local index', z3.And(pc, z3.Or(g0 + idx != reg, idx < 0, idx >= L))))
+
+    def replay(model, ent):
+        A = model.eval(at, model_completion=True).as_signed_long()
+        res, log = native_partitioned(1, lens, A, 0, 0)
+        ra = A + total if A < 0 else A
+        ok = 0 <= ra < total
+        payload = dict(partition_lengths=lens, at=A, native=res)
+        if ok and (res.get('outcome') != 'ok' or res.get('part_start', -1) + res.get('index', -1) != ra):
+            return True, 'partition lengths %s, item %d: native run %s, the concatenation has it at position %d' % (lens, A, res, ra), payload
+        if not ok and res.get('outcome') != 'raised':
+            return True, 'partition lengths %s, item %d is out of range but the native run gives %s %s' % (lens, A, res, log[-100:]), payload
+        return False, 'native run agrees (%s)' % res, payload
+    return mdischarge(m, 'PartitionedArray::getitem_at lens=%s' % ','.join(map(str, lens)), obls, [('in range', inr), ('negative in range', z3.And(inr, at < 0))] if total > 0 else [('out of range', z3.Not(inr))], replay=replay,
+                      prefer=[at >= -total - 2, at <= total + 2], extra=dict(bounds='partition lengths %s concrete; any int64 index' % lens))
+
+
+def range_jobs(tier):
+    import itertools
+    js = []
+    if tier == 'quick':
+        shapes = [(0,), (3,)] + list(itertools.product((0, 1, 3), repeat=2)) + [l for l in itertools.product((0, 1, 2), (0, 1, 4), (0, 1, 2))]
+        steps = (-2, -1, 1, 2, 3, KNONE)
+    else:
+        shapes = [l for P in (1, 2) for l in itertools.product(range(6), repeat=P)] + list(itertools.product(range(5), repeat=3)) + list(itertools.product((0, 1, 3), repeat=4))
+        steps = (-5, -4, -3, -2, -1, 1, 2, 3, 4, 5, KNONE)
+    for l in shapes:
+        for s in steps:
+            if tier == 'quick' and len(l) == 3 and s in (KNONE, -1, 1) and l[1] != 4:
+                continue
+            js.append((h_range, (l, s), 600))
+        js.append((h_getitem_at, (l,), 600))
+    return js
